@@ -39,7 +39,9 @@ def with_oracle(chk, cases, module='Oracle', timeout_s=900):
     out, st = tlc.oracle(cases, module=module, timeout_s=timeout_s)
     chk.states += st['distinct']
     chk.transitions += st['states']
-    chk.tlc_cmds.append('tlc Oracle (ndjson cases via IOEnv.CASES), %d cases' % len(cases))
+    chk.tlc_cmds.append('tlc %s (ndjson cases via IOEnv.CASES), %d cases' % (module, len(cases)))
+    if module == 'OracleVM':
+        chk.notes['vm_refinement_checked_on_random_cases'] = chk.notes.get('vm_refinement_checked_on_random_cases', 0) + st['in_vm']
     for c in cases:
         c['exp'] = out[c['id']]
     return cases
@@ -70,16 +72,20 @@ def text_of(cps, bm=False):
         return repr(cps)
 
 
-def replay(chk, cases, judge=None, tagger=None, hooks=False, sample_every=997, fn='observe_case'):
+def replay(chk, cases, judge=None, tagger=None, hooks=False, sample_every=997, fn='observe_case', timeout_budget=60):
     """Replay cases in the real code and judge every run.
     judge(case, run, exp, obs) -> None | reason;  tagger(case, run, exp, obs, why) -> (tags, obs_sig)"""
     live = drop_ill(chk, cases)
-    obs = engine.run_real(live, hooks=hooks, fn=fn)
+    obs = engine.run_real(live, hooks=hooks, fn=fn, timeout_budget=timeout_budget)
     n = 0
     for c in live:
         o = obs.get(c['id'])
         if o is None:
             raise MachineryFailure('no observation for case %r' % c['id'])
+        if o['build'][0] == engine.SKIPPED:
+            # only after many cases of this family timed out (each confirmed one is reported below)
+            chk.notes['cases_skipped_after_timeouts'] = chk.notes.get('cases_skipped_after_timeouts', 0) + 1
+            continue
         chk.traces += 1
         if o['build'][0] in ('render-error', 'harness-error'):
             raise MachineryFailure('harness problem on case %r: %r' % (c['id'], o['build']))
